@@ -193,7 +193,9 @@ int main(int argc, char** argv) {
   std::vector<std::string> names = {"America/New_York", "Nope/Missing", F + "/Europe/London", "/nonexistent/x", "file:America/New_York", "file:" + F + "/Europe/London", "",
                                     "America", "bad/empty", "bad/trunc_header", "bad/trunc_second_header", "bad/trunc_data", "bad/trunc_before_footer", "bad/trunc_in_footer", "bad/garbage", "bad/leap",
                                     ":America/New_York", "UTC", "UTC0", "Fixed/UTC+05:30:00", "Fixed/UTC-00:00:01", "file:", "file:Nope", "file:bad/empty", "Europe/London", "europe/london", "America/New_York/", "./America/New_York", "America//New_York",
-                                    "file:file:America/New_York", "File:America/New_York", "file:/America/New_York", "good/v1only", "good/v1only_with_trailing_garbage", "localtime", ":localtime"};
+                                    "file:file:America/New_York", "File:America/New_York", "file:/America/New_York", "good/v1only", "good/v1only_with_trailing_garbage", "localtime", ":localtime",
+                                    // only the PREFIX-FREE spellings of UTC / fixed-offset names are resolved internally; behind "file:" they are file names
+                                    "file:UTC", "file:UTC0", "file:Fixed/UTC+01:00:00", "file:Fixed/UTC+00:00:00", "file:Fixed/UTC-23:59:59"};
   for (auto& n : footer_cuts) names.push_back(n);
   std::vector<Env> envs;
   struct V { bool set; std::string v; std::string label; };
